@@ -67,7 +67,24 @@ func Listing[S any](h *H, want []Entry[S]) hseq.Seq[S] {
 			return nil
 		}
 	}
-	return seq
+	// the result belongs to the caller: reordering or truncating it must not show in a later unfolding
+	for i, j := 0, len(seq)-1; i < j; i, j = i+1, j-1 {
+		seq[i], seq[j] = seq[j], seq[i]
+	}
+	if len(seq) > 1 {
+		seq[0] = seq[1]
+	}
+	again := hseq.New[S]()
+	if len(again) != len(want) {
+		h.Failf("second hseq.New lists %d entries after the first result was modified by its owner, want %d", len(again), len(want))
+		return nil
+	}
+	for i := range want {
+		if !SameEntry(h, "second hseq.New (after the first result was reordered by its owner)", again[i], want[i], i) {
+			return nil
+		}
+	}
+	return again
 }
 
 // ByName checks ForName / ForNameMaybe / New(name): want < 0 means the key does not occur.
